@@ -27,6 +27,12 @@ def _in_ball(rng, centre, rmin, rmax):
 def make_case(rng, level=1, kinds=("nested", "nested", "split", "inclusions", "nonconductive"), ndip=4, nsens=6):
     m = models.random_model(rng, level, kinds)
     info = m["info"]; topo = info["topology"]; R = info["outer_radius"]
+    # orientation repair: one closed mesh wound inwards in the files (Interface::is_mesh_orientations_coherent has to
+    # reorient it from the solid angle at the bounding-box centre, in the original and in the moved frame alike)
+    closed = [i for i, (nm, _, _) in enumerate(m["meshes"]) if nm not in ("north", "south", "cut")]
+    if closed and rng.random() < 0.35:
+        i = rng.choice(closed); ms = list(m["meshes"]); ms[i] = models.flip_winding(ms[i]); m["meshes"] = ms
+        info["flipped_mesh"] = ms[i][0]
     # inradius factor of the icosphere/octasphere at this level (facets lie inside the sphere)
     inr = {0: 0.79, 1: 0.93, 2: 0.98, 3: 0.995}.get(level, 0.99)
     dip_pos = []; points = []
@@ -517,7 +523,8 @@ def run_pairs(ck, hb, items, tol=1e-9, stats=None, what=""):
         if q is None:
             ref = r; continue
         R, t, s, k = trs[q]
-        rec = dict(label=label, s=s, k=k, topology=case["model"]["info"].get("topology"), levels={}, singular=False, fails=[])
+        rec = dict(label=label, s=s, k=k, topology=case["model"]["info"].get("topology"), levels={}, singular=False, fails=[],
+                   flipped=case["model"]["info"].get("flipped_mesh"))
         recs.append(rec)
         stats["pairs"] = stats.get("pairs", 0) + 1
         replay = dict(kind="pair", label=label, case=case_to_json(case), transform=tr_dict(R, t, s, k), tol=tol, what=what,
@@ -616,3 +623,15 @@ def replay_any(ck, hb, rp, label):
         return []
     ck.log("replay file of kind %r: nothing to run (proof/build entries are re-checked by a normal run)" % rp.get("kind"))
     return []
+
+
+def clean_axiom_accounting(ck):
+    """core.check_props' pattern also captures the 'Axioms:' header of Print Assumptions (and 'Warning:' lines) as if
+    they were axiom names: drop those pseudo entries from the per-theorem lists and from the notes"""
+    bogus = ("Axioms", "Warning")
+    ck.notes = [n for n in ck.notes if not any(n.endswith("depends on " + b) for b in bogus)]
+    for t in ck.cov.get("theorems", []):
+        if t.get("axioms"): t["axioms"] = [a for a in t["axioms"] if a not in bogus]
+    ax = sorted({a for t in ck.cov.get("theorems", []) for a in (t.get("axioms") or [])})
+    ck.cov["axioms_used"] = ax
+    return ax
